@@ -24,16 +24,16 @@ import (
 )
 
 const (
-	ModeSigned           = "signed"           // x-amz-content-sha256 = sha256(body)
-	ModeUnsigned         = "unsigned"         // UNSIGNED-PAYLOAD
-	ModeChunked          = "chunked"          // STREAMING-AWS4-HMAC-SHA256-PAYLOAD
-	ModeChunkedTrailer   = "chunked-trailer"  // STREAMING-AWS4-HMAC-SHA256-PAYLOAD-TRAILER
-	ModeUnsignedTrailer  = "unsigned-trailer" // STREAMING-UNSIGNED-PAYLOAD-TRAILER
-	ModePresign          = "presign"          // query-string auth
-	ModeAnonymous        = "anonymous"        // no credentials at all
-	emptySHA             = "e3b0c44298fc1c149afbf4c8996fb92427ae41e4649b934ca495991b7852b855"
-	amzTime              = "20060102T150405Z"
-	amzDate              = "20060102"
+	ModeSigned          = "signed"           // x-amz-content-sha256 = sha256(body)
+	ModeUnsigned        = "unsigned"         // UNSIGNED-PAYLOAD
+	ModeChunked         = "chunked"          // STREAMING-AWS4-HMAC-SHA256-PAYLOAD
+	ModeChunkedTrailer  = "chunked-trailer"  // STREAMING-AWS4-HMAC-SHA256-PAYLOAD-TRAILER
+	ModeUnsignedTrailer = "unsigned-trailer" // STREAMING-UNSIGNED-PAYLOAD-TRAILER
+	ModePresign         = "presign"          // query-string auth
+	ModeAnonymous       = "anonymous"        // no credentials at all
+	emptySHA            = "e3b0c44298fc1c149afbf4c8996fb92427ae41e4649b934ca495991b7852b855"
+	amzTime             = "20060102T150405Z"
+	amzDate             = "20060102"
 )
 
 var AllModes = []string{ModeSigned, ModeUnsigned, ModeChunked, ModeChunkedTrailer, ModeUnsignedTrailer, ModePresign}
@@ -43,41 +43,41 @@ type KV struct{ K, V string }
 
 // Req is an S3 request in client terms.
 type Req struct {
-	Method  string
-	Path    string // decoded path, e.g. "/bucket/key with space"
-	RawPath string // if set: exact bytes put on the wire as the path
+	Method   string
+	Path     string // decoded path, e.g. "/bucket/key with space"
+	RawPath  string // if set: exact bytes put on the wire as the path
 	CanonURI string // if set: canonical URI to sign (else URI-encoded Path)
-	Query   []KV
-	Headers []KV
-	Body    []byte
+	Query    []KV
+	Headers  []KV
+	Body     []byte
 
-	Access, Secret string
-	Mode           string
-	Region         string
-	Service        string
-	Time           time.Time
-	Expires        int // presign
-	ChunkSizes     []int
-	TrailerAlgo    string
+	Access, Secret    string
+	Mode              string
+	Region            string
+	Service           string
+	Time              time.Time
+	Expires           int // presign
+	ChunkSizes        []int
+	TrailerAlgo       string
 	SignContentLength bool
-	Host           string
+	Host              string
 	// overrides used to build requests that are validly signed but carry a false assertion
-	TrailerValue    string // trailing checksum value to send instead of the computed one
-	DecodedLen      *int   // X-Amz-Decoded-Content-Length to declare
-	PayloadHash     string // x-amz-content-sha256 to declare in ModeSigned
+	TrailerValue string // trailing checksum value to send instead of the computed one
+	DecodedLen   *int   // X-Amz-Decoded-Content-Length to declare
+	PayloadHash  string // x-amz-content-sha256 to declare in ModeSigned
 }
 
 // Signed is a request after signing, still structured so that a test can
 // tamper with individual pieces before serialising.
 type Signed struct {
-	Method   string
-	Target   string // path?query exactly as on the wire
-	Headers  []KV
-	Body     []byte // wire body (already chunk-encoded for streaming modes)
-	Payload  []byte // decoded payload
-	Sig      string // request signature (seed signature)
-	Marks    []Mark // regions of interest inside Body
-	Mode     string
+	Method        string
+	Target        string // path?query exactly as on the wire
+	Headers       []KV
+	Body          []byte // wire body (already chunk-encoded for streaming modes)
+	Payload       []byte // decoded payload
+	Sig           string // request signature (seed signature)
+	Marks         []Mark // regions of interest inside Body
+	Mode          string
 	SignedHeaders string
 }
 
